@@ -207,7 +207,16 @@ def decoder(ctx, tk):
             if idx.k == "sub" and (attr_chain(idx.a[0]) or ("",))[-1] == "_starts":
                 if idx.a[1].k == "slice" and is_const(idx.a[1].a[0], 1):
                     ok = val.k == "call" and len(val.a[1]) == 2
-                    ctx.decide("C14.d", f, "value differences are scattered at the starts of runs 1..", True if ok else None, node=n.ast, key="scatter-diffs", engine="E5")
+                    # a constant instead of the difference claims that every boundary is a change of value: adjacent runs with equal
+                    # values (legal for results of comparisons, astype, concatenation, run-length masks) are then decoded inverted
+                    def _consts(t):
+                        if t.k == "ifexp":
+                            return _consts(t.a[1]) + _consts(t.a[2])
+                        return [a for a in alts(t) if a.k == "const"]
+                    cs = _consts(val)
+                    ctx.decide("C14.d", f, "value differences are scattered at the starts of runs 1..", False if cs else (True if ok else None),
+                               "the constant %r is stored at the run starts on some path instead of the difference of the neighbouring run values: runs are assumed to alternate, "
+                               "which only canonical arrays do" % (cs[0].a[0] if cs else None,), node=n.ast, key="scatter-diffs", engine="E5")
                 elif is_const(idx.a[1], 0):
                     ok = val.k == "sub" and is_const(val.a[1], 0)
                     ctx.decide("C14.d", f, "the first run's value is stored at its start", True if ok else None, node=n.ast, key="scatter-first", engine="E5")
